@@ -1,5 +1,6 @@
 """C05 - solve is bounded, reports convergence honestly and is reproducible."""
 import copy
+import os
 import json
 import logging
 import math
@@ -387,6 +388,10 @@ def real_runs(chk):
                             for hf in getattr(c, n).functions:
                                 hf.cycle = False
                     break
+                # the aborted sequence is inspected (as one does after a failure: repr of the sequence, its units and their profiles) and solved again
+                from common import look_at
+                for obj in [sx] + [x for u_ in sx.units for x in (u_, getattr(u_, 'in_profile', None), getattr(u_, 'out_profile', None)) if x is not None]:
+                    look_at(obj, html=False)
                 sx.solve(ip())
                 if aborted_x and any(abs(a - b) > 5 * prec * max(abs(b), 1e-12) for a, b in zip(numeric_state(sx), ref_state)):
                     if not chk.failures:
@@ -424,6 +429,41 @@ def real_runs(chk):
             chk.fail('abort-recovery', "after an aborted solve the sequence does not solve to the results of a fresh one", {})
         chk.cov['evaluations'] += 4
         chk.notes.append(f"real sequence: twin/deepcopy bit-identical, re-solve within 5*precision, abort injected={aborted} then recovered")
+
+
+def hash_seed_twins(chk):
+    """the same input gives the same result in every interpreter: nothing may depend on the iteration order of sets of strings (PYTHONHASHSEED)"""
+    import subprocess, sys as _sys
+    from common import REPO
+    code = (
+        "import sys; sys.path.insert(0, %r); sys.path.insert(0, %r); sys.path.insert(0, %r)\n"
+        "from props import c05\n"
+        "from pyroll.core import RollPass\n"
+        "with RollPass.Profile.flow_stress(c05.flow_stress), RollPass.OutProfile.width(c05.spread_width):\n"
+        "    s = c05.make_sequence(); s.solve(c05.ip_twin()); s.solve(c05.ip_twin())\n"
+        "print(repr([float(x).hex() for x in c05.numeric_state(s)]))\n") % (REPO, os.path.dirname(os.path.dirname(os.path.abspath(__file__))),
+                                                                          os.path.dirname(os.path.abspath(__file__)))
+    outs = {}
+    for seed in ('0', '1', '17', '4242'):
+        env = dict(os.environ, PYTHONHASHSEED=seed, PYTHONPATH=REPO)
+        r = subprocess.run([_sys.executable, '-c', code], capture_output=True, text=True, env=env, timeout=300)
+        chk.cov['evaluations'] += 1
+        if r.returncode != 0:
+            chk.notes.append(f"hash-seed twin {seed}: {r.stderr[-200:]}")
+            return
+        outs[seed] = r.stdout.strip().splitlines()[-1]
+    if len(set(outs.values())) > 1:
+        import ast as _ast
+        vals = {k: [float.fromhex(x) for x in _ast.literal_eval(v)] for k, v in outs.items()}
+        a, b = vals['0'], next(v for v in vals.values() if v != vals['0'])
+        dev = max(abs(x - y) / max(abs(x), 1e-300) for x, y in zip(a, b))
+        chk.fail('hash-seed', f"the same sequence solved (twice) with the same incoming profile gives different results under different PYTHONHASHSEED values "
+                 f"(max relative deviation {dev:.3g}): some step depends on the iteration order of a set", {'seeds': list(outs)})
+
+
+def ip_twin():
+    from pyroll.core import Profile
+    return Profile.round(diameter=30e-3, temperature=1473.15, material=["C45", "steel"], length=1)
 
 
 def _all_subclasses(c):
@@ -486,6 +526,8 @@ def run(chk):
     if not chk.failures:
         reconfigured_limit_oracle(chk)
     real_runs(chk)
+    if not chk.failures:
+        hash_seed_twins(chk)
     chk.cov['rule'] = ("scripted units (root-hook result vectors follow a generated script of dyadic numbers: converging, exact-boundary, "
                        "oscillating, nan/inf, changing shapes, raising), 1-3 consecutive solves per unit, iteration limits 0-8, dyadic "
                        "precisions; compared: outcome, iteration count, stored vector; plus one real three-unit sequence (recorded iterates, "
